@@ -148,4 +148,78 @@ def prefixFreeL : List Schema → Bool
   | f :: fs => prefixFree f && prefixFreeL fs
 end
 
+/-! ### the hypotheses as executable tests (for the runner and for examples) -/
+
+def namesOfS : List Schema → List (Option Str)
+  | [] => []
+  | f :: fs => f.name :: namesOfS fs
+
+mutual
+/-- executable copy of `wf` (Proofs/C02.lean): mapping fields are named, pairwise distinct -/
+def wfS : Schema → Bool
+  | .leaf .. => true
+  | .dict _ _ _ fields => wfSL fields && (namesOfS fields).all Option.isSome && decide (namesOfS fields).Nodup
+  | .compound _ _ _ fields => wfSL fields && (namesOfS fields).all Option.isSome && decide (namesOfS fields).Nodup
+  | .list _ _ _ _ member => wfS member
+  | .array _ _ _ member => wfS member
+  | .joined _ _ _ member => wfS member
+def wfSL : List Schema → Bool
+  | [] => true
+  | f :: fs => wfS f && wfSL fs
+end
+
+/-- the texts of a list of scalar leaves (`none` if some member is not a leaf) -/
+def leavesOf : List Elem → Option (List Str)
+  | [] => some []
+  | .leaf u :: es => (leavesOf es).map (u :: ·)
+  | _ :: _ => none
+
+mutual
+/-- executable `OkS` -/
+def okSB (env : Env) : Schema → Elem → Bool
+  | .leaf _ _ k, .leaf u => env.norm k u == u
+  | .joined _ _ k _, .joined u ms =>
+    env.norm k u == u && (leavesOf ms == some (env.joinedMembers k u) || (u.isEmpty && ms.isEmpty))
+  | .array _ _ _ (.leaf _ _ k), .array ms =>
+    ms.all (fun e => match e with | .leaf u => env.norm k u == u | _ => false)
+  | .dict _ _ _ fields, .dict ms =>
+    decide (ms.map (·.1)).Nodup && ms.all (fun p => okSAnyB env fields p.1 p.2)
+  | .compound _ _ _ fields, .dict ms =>
+    decide (ms.map (·.1)).Nodup && ms.all (fun p => okSAnyB env fields p.1 p.2)
+  | .list _ _ _ mx member, .list ms =>
+    decide (ms.length ≤ mx) && (List.range ms.length).all (fun i => decide ((natStr i).length ≤ env.maxDigits))
+      && ms.all (fun e => okSB env member e)
+  | _, _ => false
+def okSAnyB (env : Env) : List Schema → Str → Elem → Bool
+  | [], _, _ => false
+  | f :: fs, k, e => (f.name == some k && okSB env f e) || okSAnyB env fs k e
+end
+
+mutual
+def hasSparse : Schema → Bool
+  | .dict _ _ mode fields => mode != .dense || hasSparseL fields
+  | .compound _ _ _ fields => hasSparseL fields
+  | .list _ _ _ _ member => hasSparse member
+  | _ => false
+def hasSparseL : List Schema → Bool
+  | [] => false
+  | f :: fs => hasSparse f || hasSparseL fs
+end
+
+mutual
+/-- every scalar kind of the schema reads the empty text back as the empty text (false of a Boolean
+    with a non-empty false token, KF-C01-h): then a blank element is settled, and a member the round
+    trip *materialises* blank (KF-C02-b) or re-creates (`minimum_fields`) conforms -/
+def blankSettled (env : Env) : Schema → Bool
+  | .leaf _ _ k => env.norm k [] == []
+  | .joined _ _ k _ => env.norm k [] == []
+  | .array _ _ _ member => blankSettled env member
+  | .list _ _ _ _ member => blankSettled env member
+  | .dict _ _ _ fields => blankSettledL env fields
+  | .compound _ _ _ fields => blankSettledL env fields
+def blankSettledL (env : Env) : List Schema → Bool
+  | [] => true
+  | f :: fs => blankSettled env f && blankSettledL env fs
+end
+
 end Flatland.Flat.Spec
